@@ -3,6 +3,7 @@
 -/
 import GEVerif.Model.Sexp
 import GEVerif.Model.Synth
+import GEVerif.Model.StrOps
 import GEVerif.Drive.Val
 import GEVerif.Drive.C01
 
@@ -30,6 +31,19 @@ def handle : List Sexp → Option Sexp
       pure (resSx valSx r)
   | [atom "prop_sat", mh, deps, v] => do
       pure (ofBool (sat (← parseMH mh) (← parseDeps deps) (← parseVal v)))
+  | [atom "str_mutate", lo, hi, al, cur, draws] => do
+      -- `StringSizeBetween(lo, hi, al).mutate(source, …, cur)` under the scripted source
+      let r := StrOps.strMutate scripted (← lo.asNat?) (← hi.asNat?) (← parseStrs al) (← parseStrs cur) ⟨← draws.asNats?, 0⟩
+      pure (match r.1 with | some out => list [atom "ok", strsSx out] | none => atom "error")
+  | [atom "ws_generate", den, rows, draws] => do
+      -- `WeightedStringHandler(matrix, alphabet).generate` under the scripted source: the letter indices
+      let rs ← (← rows.asList?).mapM asNats?
+      let r := StrOps.wsGenerate scripted (← den.asNat?) rs ⟨← draws.asNats?, 0⟩
+      pure (match r.1 with | some out => list [atom "ok", ofNats out] | none => atom "error")
+  | [atom "str_crossover", lo, hi, mates, cur, draws] => do
+      let ms ← (← mates.asList?).mapM parseStrs
+      let r := StrOps.strCrossover scripted (← lo.asNat?) (← hi.asNat?) ms (← parseStrs cur) ⟨← draws.asNats?, 0⟩
+      pure (match r.1 with | some out => list [atom "ok", strsSx out] | none => atom "error")
   | rest => C01.handle rest
 
 end GEVerif.Drive.C02
